@@ -302,6 +302,12 @@ const (
 	resourceTypeCalendarObject
 )
 
+// samePath reports whether two paths name the same resource: a collection
+// may be addressed with or without a trailing slash (RFC 4918 section 5.2).
+func samePath(a, b string) bool {
+	return strings.TrimSuffix(a, "/") == strings.TrimSuffix(b, "/")
+}
+
 func (b *backend) resourceTypeAtPath(reqPath string) resourceType {
 	p := path.Clean(reqPath)
 	p = strings.TrimPrefix(p, b.Prefix)
@@ -384,7 +390,7 @@ func (b *backend) PropFind(r *http.Request, propfind *internal.PropFind, depth i
 		if err != nil {
 			return nil, err
 		}
-		if r.URL.Path == principalPath {
+		if samePath(r.URL.Path, principalPath) {
 			resp, err := b.propFindUserPrincipal(r.Context(), propfind)
 			if err != nil {
 				return nil, err
@@ -410,7 +416,7 @@ func (b *backend) PropFind(r *http.Request, propfind *internal.PropFind, depth i
 		if err != nil {
 			return nil, err
 		}
-		if r.URL.Path == homeSetPath {
+		if samePath(r.URL.Path, homeSetPath) {
 			resp, err := b.propFindHomeSet(r.Context(), propfind)
 			if err != nil {
 				return nil, err
